@@ -156,7 +156,7 @@ PROVED = {
  "C05": "the children-slot protocol of the runtime equals lexical scoping for every program of the skeleton language (Runtime/Children.v).",
  "C06": "THE COMPILER TERMINATES, for every input: under budgets that exist only in the model and are linear in the input (9(n+1) state calls per token, "
         "460(n+1)+2 parser iterations) the model of the parse returns a tree, with or without an error -- no hang, spin, exhausted budget, panic or blocked "
-        "channel (C06_parse_terminates). Ingredients, each a theorem over all inputs, cursors and parser states: every lexer state call sends at most 4 "
+        "channel (C06_parse_terminates), and above those bounds the result is the same for all budgets (C06_budgets_do_not_matter). Ingredients, each a theorem over all inputs, cursors and parser states: every lexer state call sends at most 4 "
         "tokens (channel holds 64); a cursor invariant keeps the ten index/slice expressions of lexer.go in range; every state call that sends no token "
         "shrinks the reader or moves down a rank (9 levels); every state call at all shrinks the reader or moves down a second rank (46 levels, indexed by "
         "state and first rune): total work and token count of the lexer linear; the fuel of the lexer's inner loops is never used up; once the lexer has "
